@@ -171,7 +171,12 @@ class FakeTermios:
         tty = self._tty
         k = tty.k
         norm = normalize_attrs(attrs)
-        restoring = tty.entry_attrs is not None and norm == tty.entry_attrs
+        # A TCSANOW call is one non-blocking ioctl: a signal is handled after it has taken
+        # effect, so the call that puts the entry attributes back is never pre-empted.  A
+        # draining call (TCSADRAIN / TCSAFLUSH) first waits for pending output and can be
+        # interrupted while it waits, before anything was applied: it is an ordinary seam.
+        restoring = tty.entry_attrs is not None and norm == tty.entry_attrs \
+            and when == real_termios.TCSANOW
         if restoring:
             # the restoring call is clean-up: never pre-empt its effect
             k.in_cleanup = True
